@@ -112,18 +112,47 @@ func scenStateMsg(e *Env, args []string, r *rand.Rand) {
 	dir, state, stim := args[0], args[1], args[2]
 	m := argMap(args)
 	hold := uint16(atoi(m["hold"], 90))
-	p := e.addPeer(1, PeerOpts{LocalAS: localAS, RemoteAS: remoteAS, Hold: hold, Passive: dir == "in", IdleHold: 5 * time.Second})
+	ihold := 5 * time.Second
+	if m["second"] == "1" {
+		ihold = 30 * time.Millisecond
+	}
+	p := e.addPeer(1, PeerOpts{LocalAS: localAS, RemoteAS: remoteAS, Hold: hold, Passive: dir == "in", IdleHold: ihold})
 	e.serve()
+	if m["second"] == "1" {
+		// the stimulus hits the SECOND connection of the same (outbound) FSM: the first session is ended by a Cease
+		p.waitEv(0, stepWait, "api.ret", "AddPeer")
+	}
 	c := p.bring(dir, state, 90, remoteID)
+	if c != nil && m["second"] == "1" {
+		p.mark = e.tr.len()
+		c.send(wire.Notification(6, 4, nil))
+		c.waitEnd(stepWait)
+		c = p.bring(dir, state, 90, remoteID)
+	}
 	if c != nil {
 		switch stim {
 		case "fin":
+			c.drainClose()
+		case "fin-midheader", "fin-midbody":
+			// the stream ends inside a message: a transport failure like any other (no NOTIFICATION is due)
+			b := wire.Update([]byte{1, 2, 3, 4, 5, 6, 7, 8})
+			if stim == "fin-midheader" {
+				c.send(b[:7])
+			} else {
+				c.send(b[:23])
+			}
 			c.drainClose()
 		case "rst":
 			c.reset()
 		default:
 			b := stimulus(stim, r)
-			if s := atoi(m["seg"], 0); s > 0 {
+			if gap := atoi(m["gap"], 0); gap > 0 {
+				// one message cut in two writes with a real pause between them
+				cut := 5 + r.Intn(len(b)-5)
+				c.send(b[:cut])
+				time.Sleep(time.Duration(gap) * time.Millisecond)
+				c.send(b[cut:])
+			} else if s := atoi(m["seg"], 0); s > 0 {
 				segs := make([]int, 0, len(b)/s+1)
 				for i := 0; i < len(b)/s+1; i++ {
 					segs = append(segs, s)
@@ -370,8 +399,14 @@ func init() {
 		var out []string
 		for _, dir := range []string{"out", "in"} {
 			for _, st := range []string{"openSent", "openConfirm", "established"} {
-				for _, s := range []string{"open", "update", "ka", "notif-cease", "notif-other", "notif-hold", "notif-short", "fin", "rst"} {
+				for _, s := range []string{"open", "update", "ka", "notif-cease", "notif-other", "notif-hold", "notif-short", "fin", "fin-midheader", "fin-midbody", "rst"} {
 					out = append(out, fmt.Sprintf("state-msg:%s:%s:%s", dir, st, s))
+				}
+				if dir == "out" {
+					// the same on the second connection of a reused outbound FSM
+					for _, s := range []string{"open", "notif-other", "fin"} {
+						out = append(out, fmt.Sprintf("state-msg:%s:%s:%s:second=1", dir, st, s))
+					}
 				}
 				if tier == "thorough" {
 					for code := 1; code <= 7; code++ {
@@ -396,6 +431,8 @@ func init() {
 						out = append(out, fmt.Sprintf("state-msg:%s:%s:%s:seg=%d", dir, st, s, seg))
 					}
 				}
+				// a well-formed message cut in two with a real pause (> 1 s) between the parts
+				out = append(out, fmt.Sprintf("state-msg:%s:%s:%s:gap=1300", dir, st, map[string]string{"openSent": "open", "openConfirm": "ka", "established": "update"}[st]))
 			}
 		}
 		return out
